@@ -18,6 +18,9 @@ type Ctx struct {
 	C    *report.Collector
 	Tier string
 	Dump string
+
+	eps *EntryPoints
+	eff *Eff
 }
 
 // Info is the descriptive part of the evidence.
